@@ -27,7 +27,7 @@ type edit struct {
 
 type c04Case struct {
 	Type     string `json:"type"`
-	Mode     string `json:"mode"` // roundtrip | trunc | corrupt | count | alloccount | widen | unsorted | splice | random | peermismatch
+	Mode     string `json:"mode"` // roundtrip | trunc | corrupt | count | alloccount | outofdomain | widen | unsorted | splice | random | peermismatch
 	V        *gv    `json:"v,omitempty"`
 	Perm     uint64 `json:"perm,omitempty"`     // seed of the map insertion orders
 	Cut      int    `json:"cut,omitempty"`      // trunc: keep Cut % len bytes
@@ -35,6 +35,7 @@ type c04Case struct {
 	Which    int    `json:"which,omitempty"`    // count/widen: which length or count prefix
 	NewCount uint64 `json:"newcount,omitempty"` // count: replacement value
 	Width    int    `json:"width,omitempty"`    // widen: 3, 5 or 9 byte var-uint
+	Salt     byte   `json:"salt,omitempty"`     // outofdomain: selects the invalid value
 	Tail     ev.B   `json:"tail,omitempty"`     // splice: bytes appended to a valid encoding
 	Raw      ev.B   `json:"raw,omitempty"`      // random: the whole input
 }
@@ -86,6 +87,9 @@ func genC04(t *rapid.T) c04Case {
 	if hasKind(e.k, kMap) {
 		modes = append(modes, "roundtrip", "unsorted")
 	}
+	if constrained(e.k) {
+		modes = append(modes, "outofdomain")
+	}
 	if hasAlloc(e.k) {
 		modes = append(modes, "alloccount", "alloccount", "alloccount")
 	}
@@ -125,6 +129,9 @@ func genC04(t *rapid.T) c04Case {
 		c.Width = rapid.SampledFrom([]int{3, 5, 9}).Draw(t, "width")
 	case "splice":
 		c.Tail = rapid.SliceOfN(rapid.Byte(), 1, 24).Draw(t, "tail")
+	case "outofdomain":
+		c.Which = rapid.IntRange(0, 1<<20).Draw(t, "which")
+		c.Salt = rapid.Byte().Draw(t, "salt")
 	}
 	return c
 }
@@ -188,7 +195,7 @@ func runC04(ctx *ev.Ctx, c c04Case) {
 	if c.Mode == "random" {
 		count(c.Type, typeBytes)
 		ctx.NonTrivial()
-		checkBytes(ctx, e, c.Raw, false)
+		checkBytes(ctx, e, c.Raw, "")
 		return
 	}
 	if c.V == nil {
@@ -208,7 +215,7 @@ func runC04(ctx *ev.Ctx, c c04Case) {
 	count(c.Type, typeBytes)
 	ctx.NonTrivial()
 	data := append([]byte(nil), want...)
-	mustReject := false
+	mustReject := ""
 	switch c.Mode {
 	case "trunc":
 		if len(data) == 0 {
@@ -218,7 +225,9 @@ func runC04(ctx *ev.Ctx, c c04Case) {
 		data = data[:c.Cut%len(data)]
 		// a strict prefix of a valid encoding lacks mandatory bytes, except where the format
 		// has an optional tail
-		mustReject = !hasKind(e.k, kOptTail)
+		if !hasKind(e.k, kOptTail) {
+			mustReject = "a strict truncation of a valid encoding"
+		}
 	case "corrupt":
 		if len(data) == 0 {
 			ctx.Label("corrupt:empty-encoding")
@@ -271,6 +280,22 @@ func runC04(ctx *ev.Ctx, c c04Case) {
 			}
 		}
 		data = append(append(append([]byte(nil), want[:m.Off]...), nb...), want[m.Off+m.W:]...)
+	case "outofdomain":
+		// one constrained field (bool, 20-byte address as var-bytes, range-checked number) is
+		// written with a value outside the decoder's documented domain: must be rejected
+		probe := &refEnc{}
+		probe.enc(e.k, *c.V)
+		if probe.seen == 0 {
+			ctx.Label("outofdomain:no-constrained-node")
+			return
+		}
+		inj := &refEnc{viol: 1 + c.Which%probe.seen, violSalt: c.Salt}
+		inj.enc(e.k, *c.V)
+		if !inj.injected {
+			ctx.Failf("harness: injection did not happen")
+		}
+		data = inj.out
+		mustReject = "an encoding with one field outside the decoder's domain"
 	case "unsorted":
 		// maps written in insertion order instead of sorted order: still a parseable record
 		s := c.Perm
@@ -390,7 +415,7 @@ func runRoundTrip(ctx *ev.Ctx, e *entry, c c04Case, want []byte) {
 // equals the reference value, consumes the same prefix, re-encodes to the canonical encoding
 // (equal to the consumed prefix unless the parser saw documented slack), and that re-encoding
 // decodes back to the same value.
-func checkBytes(ctx *ev.Ctx, e *entry, data []byte, mustReject bool) {
+func checkBytes(ctx *ev.Ctx, e *entry, data []byte, mustReject string) {
 	ref := refParse(e.k, data)
 	if ref.hazard {
 		switch {
@@ -420,8 +445,8 @@ func checkBytes(ctx *ev.Ctx, e *entry, data []byte, mustReject bool) {
 		}
 		ctx.Failf("%s: decoder panicked on %x: %s", e.name, clip(data), p)
 	}
-	if mustReject && err == nil {
-		ctx.Failf("%s: strict truncation (%d bytes) of a valid encoding was accepted: %x", e.name, len(data), clip(data))
+	if mustReject != "" && err == nil {
+		ctx.Failf("%s: %s (%d bytes) was accepted: %x", e.name, mustReject, len(data), clip(data))
 	}
 	if (err == nil) != ref.ok {
 		if ref.ok {
@@ -517,11 +542,11 @@ func TestC04(t *testing.T) {
 	rec.Extra("types", typeCount)
 	rec.Extra("types_roundtrip", typeRT)
 	rec.Extra("types_bytes", typeBytes)
-	rec.Extra("registered_types", len(typeNames))
+	rec.Extra("registered_types", fmt.Sprintf("%d: %s", len(typeNames), strings.Join(typeNames, " ")))
 	ev.Drive(t, "C04",
 		fmt.Sprintf("cases: one of %d registered codec types (uniform) x mode. roundtrip: value drawn from the per-field domains of the type's schema "+
 			"(20-byte addresses, non-negative big ints, maps of 0..12 distinct adversarial keys, lists 0..8, nil/empty variants), built with a seeded map insertion order; "+
-			"byte modes: strict truncation, 1-3 byte corruptions, rewritten length/count prefixes (incl. huge counts), widened var-uints, unsorted map entries, "+
+			"byte modes: strict truncation, 1-3 byte corruptions, rewritten length/count prefixes (incl. huge counts), widened var-uints, unsorted map entries, one field outside its domain (bool>1, address length!=20, BlocksToWait 0, version>0), "+
 			"trailing bytes, arbitrary bytes (<=96). non-trivial: value holds a map with >=2 entries or a list with >=2 items, or the input is mutated/arbitrary; "+
 			"distinct by JSON encoding of the case. Fork check off (EXTRA_INFO_HEIGHT_FORK_CHECK=false): ExtraInfo always written.", len(typeNames)),
 		genC04, runC04)
